@@ -216,38 +216,45 @@ fn composite_dump(d: &CompositeBuildpackDescriptor) -> Value {
     json!({"kind": "composite", "api": [d.api.major, d.api.minor], "buildpack": bp_dump(&d.buildpack), "order": order_dump(&d.order), "metadata": md_dump(&d.metadata)})
 }
 
-fn parse_doc(ty: &str, text: &str) -> Result<Value, String> {
+/// `file`: parse through libcnb's read_toml_file on that file (which holds `text`) instead of toml::from_str on the text
+fn parse_doc(ty: &str, text: &str, file: Option<&str>) -> Result<Value, String> {
     fn e<E: std::fmt::Display>(x: E) -> String {
         format!("{x}")
     }
+    fn rd<T: serde::de::DeserializeOwned>(text: &str, file: Option<&str>) -> Result<T, String> {
+        match file {
+            Some(p) => libcnb_common::toml_file::read_toml_file::<T>(p).map_err(e),
+            None => toml::from_str::<T>(text).map_err(e),
+        }
+    }
     Ok(match ty {
-        "buildpack_descriptor" => match toml::from_str::<BuildpackDescriptor>(text).map_err(e)? {
+        "buildpack_descriptor" => match rd::<BuildpackDescriptor>(text, file)? {
             BuildpackDescriptor::Component(d) => component_dump(&d),
             BuildpackDescriptor::Composite(d) => composite_dump(&d),
         },
-        "component" => component_dump(&toml::from_str::<ComponentBuildpackDescriptor>(text).map_err(e)?),
-        "composite" => composite_dump(&toml::from_str::<CompositeBuildpackDescriptor>(text).map_err(e)?),
+        "component" => component_dump(&rd::<ComponentBuildpackDescriptor>(text, file)?),
+        "composite" => composite_dump(&rd::<CompositeBuildpackDescriptor>(text, file)?),
         "buildpack_plan" => {
-            let p = toml::from_str::<BuildpackPlan>(text).map_err(e)?;
+            let p = rd::<BuildpackPlan>(text, file)?;
             json!({"entries": p.entries.iter().map(|x| json!({"name": x.name, "metadata": toml_to_json(&toml::Value::Table(x.metadata.clone()))})).collect::<Vec<_>>()})
         }
         "layer_toml" => {
-            let l = toml::from_str::<LayerContentMetadata>(text).map_err(e)?;
+            let l = rd::<LayerContentMetadata>(text, file)?;
             json!({"types": l.types.map(|t| json!({"launch": t.launch, "build": t.build, "cache": t.cache})), "metadata": md_dump(&l.metadata)})
         }
         "launch" => {
-            let l = toml::from_str::<Launch>(text).map_err(e)?;
+            let l = rd::<Launch>(text, file)?;
             json!({"processes": l.processes.iter().map(|p| json!({"type": p.r#type.as_str(), "command": p.command, "args": p.args, "default": p.default,
                         "working-dir": match &p.working_directory { WorkingDirectory::App => Value::Null, WorkingDirectory::Directory(d) => json!(d.to_string_lossy()) }})).collect::<Vec<_>>(),
                    "labels": l.labels.iter().map(|x| json!({"key": x.key, "value": x.value})).collect::<Vec<_>>(),
                    "slices": l.slices.iter().map(|s| json!({"paths": s.path_globs})).collect::<Vec<_>>()})
         }
         "store" => {
-            let s = toml::from_str::<Store>(text).map_err(e)?;
+            let s = rd::<Store>(text, file)?;
             json!({"metadata": toml_to_json(&toml::Value::Table(s.metadata))})
         }
         "package" => {
-            let p = toml::from_str::<PackageDescriptor>(text).map_err(e)?;
+            let p = rd::<PackageDescriptor>(text, file)?;
             json!({"buildpack": {"uri": p.buildpack.uri.to_string()}, "dependencies": p.dependencies.iter().map(|d| json!({"uri": d.uri.to_string()})).collect::<Vec<_>>(),
                    "platform": {"os": format!("{:?}", p.platform.os).to_lowercase()}})
         }
@@ -263,29 +270,16 @@ pub fn handle_docs(req: &Value) -> Value {
         let it = it.as_array().unwrap();
         let ty = it[0].as_str().unwrap();
         let text = it[1].as_str().unwrap();
-        let r = parse_doc(ty, text);
-        let mut o = match &r {
+        // route: the text through toml::from_str, or a real file through read_toml_file (what the runtime and the packaging code use)
+        let via_file = it[2].as_bool().unwrap_or(false);
+        if via_file {
+            std::fs::write(tmp, text).unwrap();
+        }
+        let r = parse_doc(ty, text, via_file.then_some(tmp));
+        out.push(match &r {
             Ok(v) => json!({"ok": true, "value": v}),
             Err(e) => json!({"ok": false, "err": e}),
-        };
-        if it[2].as_bool().unwrap_or(false) {
-            // second route: read_toml_file on a real file
-            std::fs::write(tmp, text).unwrap();
-            use libcnb_common::toml_file::read_toml_file;
-            let file_ok = match ty {
-                "buildpack_descriptor" => read_toml_file::<BuildpackDescriptor>(tmp).is_ok(),
-                "component" => read_toml_file::<ComponentBuildpackDescriptor>(tmp).is_ok(),
-                "composite" => read_toml_file::<CompositeBuildpackDescriptor>(tmp).is_ok(),
-                "buildpack_plan" => read_toml_file::<BuildpackPlan>(tmp).is_ok(),
-                "layer_toml" => read_toml_file::<LayerContentMetadata>(tmp).is_ok(),
-                "launch" => read_toml_file::<Launch>(tmp).is_ok(),
-                "store" => read_toml_file::<Store>(tmp).is_ok(),
-                "package" => read_toml_file::<PackageDescriptor>(tmp).is_ok(),
-                _ => panic!(),
-            };
-            o["file_ok"] = json!(file_ok);
-        }
-        out.push(o);
+        });
     }
     json!({"results": out})
 }
